@@ -25,6 +25,7 @@ only one of the two builds must belong to a class that cannot change outcomes:
                  evaluates to under the assumption.
  C colour detect  in every colour configuration Color::default() is Monochrome unless both streams are terminals (table; shared with C11).
  F swaps are writes a mem::swap / replace / take inside a completion-family function may only touch the completion fields.
+ C print_message   in the colour builds print_message renders the payload of the failure itself (same text as the colourless build and run_inner; shared with C11).
 Does not decide: nothing further beyond the soundness of the summaries (trusted: this analyser, rustc's MIR)."""
 import re
 from core import *
